@@ -39,10 +39,10 @@ class Chan:
                     os._exit(99)   # controller went away
                 self.buf += chunk
             line, self.buf = self.buf.split(b"\n", 1)
-            rep = json.loads(line)
-            if "now" in rep and rep["now"] > VT[0]:
-                VT[0] = rep["now"]
-            return rep
+            # the virtual clock is process-local: it advances by this process' own sleeps and lock timeouts only
+            # (a clock shared with the controller would make a parked process observe huge gaps between two of its
+            # own consecutive operations, which no real execution does)
+            return json.loads(line)
         finally:
             _DEPTH["audit"] -= 1
 
@@ -70,6 +70,7 @@ class SimLock:
             except FileExistsError:
                 rep = CH.call(op="lock_blocked", path=self.lock_file)
                 if rep.get("timeout"):
+                    VT[0] += 300.0
                     raise filelock.Timeout(self.lock_file)
                 continue
             os.write(fd, f"{VP['pid']}\n{VP['host']}\n".encode())
@@ -215,6 +216,7 @@ def install(vp):
 
     def vsleep(s):
         CH.call(op="sleep", s=float(s))
+        VT[0] += max(0.0, float(s))
 
     def vtime():
         VT[0] += 0.001
